@@ -83,7 +83,8 @@ static inline int c12_cnt(const c12_grid *g, int64_t a, int64_t b, int px)
 /* counts per pixel: ideal rule, and the intervals reachable by moving each edge by <= 1 ulp (lo,hi) resp. <= 2 ulp (lo2,hi2)
  * at each sample row.  lo2/hi2 are only filled for depth 1 (see c12_traps.c: the 1-bit rasteriser compounds two one-ulp effects). */
 #define C12_MAXPIX 96
-typedef struct { int ideal[C12_MAXPIX], lo[C12_MAXPIX], hi[C12_MAXPIX], lo2[C12_MAXPIX], hi2[C12_MAXPIX]; } c12_counts;
+/* rep: see "model of the recorded edge-position finding" at the end of this file; have_rep: rep is filled for this request */
+typedef struct { int ideal[C12_MAXPIX], lo[C12_MAXPIX], hi[C12_MAXPIX], lo2[C12_MAXPIX], hi2[C12_MAXPIX], rep[C12_MAXPIX]; int have_rep; } c12_counts;
 
 /* add the samples s of one row with a <= s < b to cnt[0..W) */
 static inline void c12_add_span(const c12_grid *g, int W, int64_t a, int64_t b, int *cnt)
@@ -159,6 +160,98 @@ static void c12_ref_tri(const c12_grid *g, int W, int H, const pixman_triangle_t
             if (!have) continue;
             c12_add_row(g, W, py, cl, cr, c);
         }
+}
+
+/* ---------------------------------------------------------------- model of the recorded edge-position finding
+ * NOT part of the oracle.  The recorded finding c12-edge-one-ulp says: the library's edge positions differ from the exact ones by less
+ * than one ulp because (a) pixman_edge_step does not store the error term of a jump that produces no carry, (b) an exact hit of an edge
+ * with dx < 0 is represented at x = X, and (c) the 1-bit rule adds X_FRAC_FIRST(1) - e.  A result that differs from the ideal count is
+ * attributed to that finding only if it is, pixel for pixel, what exactly those three facts produce - which this function computes by
+ * walking the two edges the way the library documents (initial jump with the omission, then one carry per row when the error term
+ * becomes positive) and counting, per row, the sample columns at or left of the edge position.  Anything else inside the one-ulp window is
+ * a different departure from the statement and is reported as a violation. */
+typedef struct { int64_t x, e, stepx, signdx, dy, dx, sx_small, dx_small, sx_big, dx_big; } c12_edge;
+static inline void c12_edge_jump(c12_edge *m, int64_t n)
+{
+    m->x += n * m->stepx;
+    int64_t ne = m->e + n * m->dx;
+    if (n >= 0) { if (ne > 0) { int64_t nx = (ne + m->dy - 1) / m->dy; m->e = ne - nx * m->dy; m->x += nx * m->signdx; } }       /* (a): no 'else m->e = ne' */
+    else if (ne <= -m->dy) { int64_t nx = (-ne) / m->dy; m->e = ne + nx * m->dy; m->x -= nx * m->signdx; }
+}
+static inline void c12_edge_multi(const c12_edge *m, int64_t n, int64_t *sx, int64_t *dxp)
+{
+    int64_t ne = n * m->dx, st = n * m->stepx;
+    if (ne > 0) { int64_t nx = ne / m->dy; ne -= nx * m->dy; st += nx * m->signdx; }
+    *sx = st; *dxp = ne;
+}
+static inline void c12_edge_init(c12_edge *m, const c12_grid *g, const pixman_line_fixed_t *l, int xoff, int yoff, int64_t ystart)
+{
+    const pixman_point_fixed_t *t = l->p1.y <= l->p2.y ? &l->p1 : &l->p2, *b = l->p1.y <= l->p2.y ? &l->p2 : &l->p1;
+    int64_t xt = (int64_t)t->x + (int64_t)xoff * 65536, yt = (int64_t)t->y + (int64_t)yoff * 65536, dx = (int64_t)b->x - t->x, dy = (int64_t)b->y - t->y;
+    m->x = xt; m->e = 0; m->dy = dy; m->dx = 0; m->stepx = 0; m->signdx = 0;
+    if (dx >= 0) { m->signdx = 1; m->stepx = dx / dy; m->dx = dx % dy; m->e = -dy; }
+    else { m->signdx = -1; m->stepx = -(-dx / dy); m->dx = -dx % dy; m->e = 0; }
+    int64_t small = g->bpp == 1 ? 65536 : g->ystep, big = g->bpp == 1 ? 65536 : 65536 - (int64_t)(g->ny - 1) * g->ystep;
+    c12_edge_multi(m, small, &m->sx_small, &m->dx_small); c12_edge_multi(m, big, &m->sx_big, &m->dx_big);
+    c12_edge_jump(m, ystart - yt);
+}
+static inline void c12_edge_row(c12_edge *m, int big)
+{
+    m->x += big ? m->sx_big : m->sx_small; m->e += big ? m->dx_big : m->dx_small;
+    if (m->e > 0) { m->e -= m->dy; m->x += m->signdx; }
+}
+/* smallest grid row >= y / largest grid row < y */
+static inline int64_t c12_row_ceil(const c12_grid *g, int64_t y)
+{
+    int64_t base = (y >> 16) * 65536, f = y - base;
+    if (f <= g->y0) return base + g->y0;
+    int64_t k = (f - g->y0 + g->ystep - 1) / g->ystep;
+    return k < g->ny ? base + g->y0 + k * g->ystep : base + 65536 + g->y0;
+}
+static inline int64_t c12_row_floor(const c12_grid *g, int64_t y)
+{
+    int64_t base = (y >> 16) * 65536, f = y - base;
+    if (f <= g->y0) return base - 65536 + g->y0 + (int64_t)(g->ny - 1) * g->ystep;
+    int64_t k = (f - 1 - g->y0) / g->ystep; if (k > g->ny - 1) k = g->ny - 1;
+    return base + g->y0 + k * g->ystep;
+}
+/* returns 0 when the request leaves the range in which the model is meaningful (32-bit edge coordinates) */
+static int c12_rep_trap(const c12_grid *g, int W, int H, const pixman_trapezoid_t *t, int xoff, int yoff, int *rep)
+{
+    if (!c12_trap_valid(t)) return 1;
+    int64_t top = (int64_t)t->top + (int64_t)yoff * 65536, bot = (int64_t)t->bottom + (int64_t)yoff * 65536;
+    if (top < 0) top = 0;
+    top = c12_row_ceil(g, top);
+    if ((bot >> 16) >= H) bot = (int64_t)H * 65536 - 1;
+    bot = c12_row_floor(g, bot);
+    if (bot < top) return 1;
+    c12_edge l, r; c12_edge_init(&l, g, &t->left, xoff, yoff, top); c12_edge_init(&r, g, &t->right, xoff, yoff, top);
+    int64_t xbig = 65536 - (int64_t)(g->nx - 1) * g->xstep, first = xbig / 2, ylast = g->y0 + (int64_t)(g->ny - 1) * g->ystep;
+    for (int64_t y = top;;) {
+        if (l.x > INT32_MAX || l.x < INT32_MIN || r.x > INT32_MAX || r.x < INT32_MIN) return 0;
+        int64_t lx = l.x, rx = r.x; int py = (int)(y >> 16);
+        if (g->bpp == 1) {
+            if (lx < (int64_t)W * 65536) lx += 32768 - 1;
+            if (rx < (int64_t)W * 65536) rx += 32768 - 1;
+        }
+        if (lx < 0) lx = 0;
+        if ((rx >> 16) >= W) rx = g->bpp == 1 ? (int64_t)W * 65536 : (int64_t)W * 65536 - 1;
+        if (rx > lx) {
+            int lxi = (int)(lx >> 16), rxi = (int)(rx >> 16);
+            if (g->bpp == 1) { for (int x = lxi; x < rxi; x++) rep[py * W + x] += 1; }
+            else {
+                int lxs = (int)(((lx & 0xffff) + first) / g->xstep), rxs = (int)(((rx & 0xffff) + first) / g->xstep);
+                if (lxi == rxi) rep[py * W + lxi] += rxs - lxs;
+                else { rep[py * W + lxi] += g->nx - lxs; for (int x = lxi + 1; x < rxi; x++) rep[py * W + x] += g->nx; rep[py * W + rxi] += rxs; }
+            }
+        }
+        if (y == bot) break;
+        int big = g->bpp == 1 || (y & 0xffff) == ylast;
+        c12_edge_row(&l, big); c12_edge_row(&r, big);
+        y += big ? (g->bpp == 1 ? 65536 : 65536 - (int64_t)(g->ny - 1) * g->ystep) : g->ystep;
+        if (y > bot) return 0;          /* cannot happen: bot is a grid row */
+    }
+    return 1;
 }
 
 #endif
